@@ -79,13 +79,19 @@ def f_parse(case):
     check((l3 == l).all() and k3 == kk, 'pauli(P.tokenize()[0]) = %s, P = %s' % (ref.show(l3, k3), ref.show(l, kk)), 'token-roundtrip')
     # idempotence on Pauli input
     check(pm.pauli(P) is P, 'pauli(P) is not P', 'pauli-idempotent')
-    # scalar factors
-    for c, dk in ((1, 0), (-1, 2), (1j, 1), (-1j, 3)):
-        Q = c * P
+    # scalar factors; every derived operator must itself print / tokenize / re-parse (its stored phase must be usable, not only its value mod 4)
+    derived = [(c * P, dk, '%r * P' % c) for c, dk in ((1, 0), (-1, 2), (1j, 1), (-1j, 3))] + [(-P, 2, '-P'), (1j * (1j * P), 2, 'i*(i*P)'), (-(-1j * P), 1, '-(-i*P)')]
+    for Q, dk, what in derived:
         lq, kq = Bk.read_pauli(Q)
-        check((lq == l).all() and kq == (kk + dk) % 4, '%r * %s = %s' % (c, ref.show(l, kk), ref.show(lq, kq)), 'scalar')
-    lq, kq = Bk.read_pauli(-P)
-    check((lq == l).all() and kq == (kk + 2) % 4, '-P wrong', 'neg')
+        check((lq == l).all() and kq == (kk + dk) % 4, '%s with P=%s gives %s' % (what, ref.show(l, kk), ref.show(lq, kq)), 'scalar')
+        try:
+            rq = repr(Q)
+            tq = Bk.num(Q.tokenize())
+        except Exception as e:
+            raise Mismatch('%s with P=%s cannot be printed / tokenized: %r (stored p=%r)' % (what, ref.show(l, kk), e, Q.p), 'derived-print')
+        l4, k4 = Bk.read_pauli(pm.pauli(rq))
+        check((l4 == l).all() and k4 == (kk + dk) % 4, 'pauli(repr(%s)) = %s (repr %r)' % (what, ref.show(l4, k4), rq), 'derived-repr')
+        check(int(tq[0, N]) == CODE[(kk + dk) % 4], 'tokenize(%s) has phase token %r expected %d' % (what, tq[0, N], CODE[(kk + dk) % 4]), 'derived-token')
     return {'nt': k % 2 == 1 or not fmt.startswith('str'), 'labels': [fmt, 'k=%d' % k, 'N=%d' % N]}
 
 
@@ -130,8 +136,12 @@ def f_list(case):
     rp = repr(P).split('\n')
     check(rp == [REPR_PREFIX[int(kk)] + ''.join(ref.LET[a] for a in ll) for ll, kk in zip(L, K)], 'repr(list) = %r' % rp, 'repr')
     for c, dk in ((1, 0), (-1, 2), (1j, 1), (-1j, 3)):
-        lq, kq = Bk.read_list(c * P)
+        Qs = c * P
+        lq, kq = Bk.read_list(Qs)
         check((lq == L).all() and (kq == (K + dk) % 4).all(), '%r * list wrong' % c, 'scalar')
+        tq = Bk.num(Qs.tokenize())
+        check((tq[:, N] == np.array([CODE[int(x)] for x in (K + dk) % 4])).all(), 'tokenize(%r * list) phase tokens %s' % (c, tq[:, N].tolist()), 'derived-token')
+        check(repr(Qs).split('\n') == [REPR_PREFIX[int(x)] + ''.join(ref.LET[a] for a in ll) for ll, x in zip(L, (K + dk) % 4)], 'repr(%r * list) wrong' % c, 'derived-repr')
     try:
         2 * P
         raise Mismatch('2 * PauliList did not raise NotImplementedError', 'scalar-reject')
